@@ -503,9 +503,12 @@ def strat_blocks(draw, tier):
     for _ in range(draw(st.integers(1, 14 if tier == "thorough" else 9))):
         kind = draw(st.sampled_from(["enter", "enter", "exit", "raise",
                                      "update", "app", "probe", "probe",
-                                     "reenter", "failing-call"]))
+                                     "reenter", "failing-call", "other"]))
         s = {"op": kind}
-        if kind in ("enter", "update"):
+        if kind == "other":
+            # something done with ANOTHER controller of the same program
+            s["how"] = draw(st.sampled_from(["update", "enter"]))
+        if kind in ("enter", "update", "other"):
             s["args"] = dict((k, draw(pool[k])) for k in draw(st.sets(
                 st.sampled_from(sorted(pool)), max_size=4)))
         elif kind == "app":
@@ -540,6 +543,7 @@ def check_blocks(case):
         with sut("MachineController"):
             mc = w.controller()
             mc.scp_data_length
+            other = w.controller()
         # stack of dicts; a context object entered twice contributes the SAME
         # dict twice (updates through one entry show through the other)
         model = [dict(mc.get_context_arguments())]
@@ -650,6 +654,13 @@ def check_blocks(case):
                     for lvl in range(len(model)):
                         if model[lvl] is model[-1]:
                             apps[lvl] = "unspecified"
+            elif op == "other":
+                # contexts belong to the controller they were made on
+                with sut("using another controller"):
+                    if step["how"] == "update":
+                        other.update_current_context(**step["args"])
+                    else:
+                        other(**step["args"]).__enter__()
             elif op == "exit":
                 if stack:
                     leave(False)
